@@ -5,6 +5,8 @@ import (
 	"os"
 	"reflect"
 	"sort"
+
+	"go.sia.tech/core/types"
 )
 
 // AppendHazard walks a value (a freshly decoded object, a library-made copy) and reports the first pair of slices
@@ -85,6 +87,52 @@ func AppendHazard(root reflect.Value) error {
 					a.path, a.live-a.lo, a.capE-a.live, b.path)
 			}
 		}
+	}
+	return nil
+}
+
+// ReuseReceiver decodes enc1 and then enc2 into one variable of the entry's type (types with a DecodeFrom method
+// only) and reports whether the value obtained from the first decode — kept as a copy of the variable, sharing its
+// lists, as an element of a longer-lived structure would — was modified by the second decode. No decoder of the
+// library writes into memory reachable from the receiver's previous value, with one documented exception
+// (rhp2.RPCReadResponse reuses the capacity of Data: "for maximum efficiency, we should be doing this for every
+// slice, but in most cases the extra performance isn't worth the aliasing issues").
+func ReuseReceiver(e *Entry, enc1, enc2 []byte) (err error) {
+	if e.Name == "rhp2.RPCReadResponse" {
+		return nil
+	}
+	p := reflect.New(e.Type)
+	df, ok := p.Interface().(types.DecoderFrom)
+	if !ok {
+		return nil
+	}
+	defer func() {
+		if r := recover(); r != nil {
+			err = nil // decoder / encoder panics are judged elsewhere
+		}
+	}()
+	d := types.NewBufDecoder(enc1)
+	df.DecodeFrom(d)
+	if d.Err() != nil {
+		return nil
+	}
+	held := reflect.New(e.Type).Elem()
+	held.Set(p.Elem())
+	before, eerr := e.Encode(held)
+	if eerr != nil {
+		return nil
+	}
+	df.DecodeFrom(types.NewBufDecoder(enc2))
+	after, eerr := e.Encode(held)
+	if eerr != nil {
+		return fmt.Errorf("the value held from the first decode cannot be encoded any more after a second decode into the same variable")
+	}
+	if string(before) != string(after) {
+		i := 0
+		for i < len(before) && i < len(after) && before[i] == after[i] {
+			i++
+		}
+		return fmt.Errorf("decoding a second message into the same variable modified the value obtained from the first decode (byte %d of its encoding changed)", i)
 	}
 	return nil
 }
